@@ -342,6 +342,20 @@ empty @is_you(int a, int b) {
 }'''.replace('%%', '%'), [[a, b] for a in (0, 3, 8) for b in (9, 6, 1, 0)]),
 ]
 
+TEMPLATES += [
+    # defeat raised INSIDE a preempt body (directly, in a loop, through a defeat function), under both handlers
+    ('defeat_inside_preempt', '''int x = 0;
+empty !f() { !truth_is_defeat(x == 1); }
+empty !deep(int a) { preempt { write('P'); !truth_is_defeat(a == 2); write('Q'); x = 0; } !f(); write('d'); }
+empty @is_you(int a, int b) {
+  try { write('t'); preempt { write('p'); !truth_is_defeat(a == 1); write('q'); x = 0; } x = b; !f(); write('n'); } %(kind)s { write('h'); }
+  try { write('T'); preempt { write('r'); if (a == 2) { !is_defeat(); } x = 0; write('s'); } x = b; !f(); write('m'); } %(kind)s { write('H'); }
+  try { write('U'); preempt { for (int i = 0; i < 2; i += 1) { write(i); !truth_is_defeat(i == a - 3); } x = 0; } x = b; !f(); write('k'); } %(kind)s { write('G'); }
+  try { write('V'); x = b; !deep(a); write('j'); } %(kind)s { write('J'); }
+  write('>');
+}''', [[a, b] for a in (0, 1, 2, 3, 4) for b in (0, 1)]),
+]
+
 SCOPE_TEMPLATES = [
     ('loop_inside_try', '''int x = 0;
 empty !f() { !truth_is_defeat(x == 1); }
@@ -552,6 +566,8 @@ empty @is_you(int n) { for (int i = 0; i < n; i += 1) { int[] a = [i, i]; byte b
     ('call_in_loop', '''int sum(const int[] p) { int s = 0; for (int i = 0; i < p.length; i += 1) { s += p[i]; } int[] t = [s, s]; return t[1]; }
 empty @is_you(int n) { for (int i = 0; i < n; i += 1) { write(sum([i, i + 1, i + 2])); write(','); } write('>'); }'''),
     ('while_alloc', '''empty @is_you(int n) { int i = 0; while (i < n) { i += 1; bool m[i %% 3 + 1]; m[0] = true; string[] s = ["a", "b"]; if (i %% 2 == 0) { continue; } write(s[1]); write(m[0]); } write('>'); }'''),
+    ('temporaries', '''int f(int x) { return x + 1; } int first(const int[] p) { return p[0]; } empty eat(const int[] p, const byte[] q) { write(p.length + q.length); }
+empty @is_you(int n) { for (int i = 0; i < n; i += 1) { [f(i), f(i + 1), 3]; first([i, f(i)]); eat([i, i, i], [(i is byte), 'x']); [i][0]; write([f(i), 2].length); if ([i, i] is bool) { write('t'); } ["a", "bc"][i %% 2]; write(first([f(i)]) + [1, f(i)][1]); } write('>'); }'''),
     ('stop_unwinds', '''empty !deep(int d, int i) { int[] pad = [d, d, d]; if (d > 0) { !deep(d - 1, i); } !truth_is_defeat(i %% 2 == 0); write(pad[0]); }
 empty @is_you(int n) { for (int i = 0; i < n; i += 1) { int[] a = [i]; try { int[] b = [1, 2]; !deep(2, i); write(b[1]); } stop { write('h'); } write(a[0]); } write('>'); }'''),
 ]
@@ -649,6 +665,12 @@ empty !walk() { write('v'); !all_is_win(); }
 empty @is_you(int x) { write(@play(x)); if (x == 2 or x == 9) { @celebrate(); @all_is_broken(); write('d'); }
   try { !all_is_broken(); !walk(); write('n'); } %(kind)s { write('u'); } write('e'); if (x == 7) { all_is_win(); } write('!'); }''',
      [['1'], ['2'], ['5'], ['7'], ['9']]),
+    ('helper_ending_in_terminal', '''empty expect(bool c, string what) { if (c) { return; } write("FAIL "); write(what); all_is_broken(); }
+empty finish(int x) { write('f'); if (x < 5) { return; } write("done"); all_is_win(); }
+int checked(int x) { expect(x >= 0, "neg"); write('c'); return x * 2; }
+empty last_call(int x) { write('l'); expect(x != 7, "seven"); }
+empty @is_you(int x) { expect(x != 3, "three"); write('a'); write(checked(x)); last_call(x); write('b'); finish(x); write('e'); expect(x == 1, "not one"); write('z'); }''',
+     [['1'], ['3'], ['-2'], ['7'], ['9'], ['2']]),
     ('nested_terminal', '''int pick(int x) { if (x == 0) { return 1; } else { if (x == 1) { all_is_win(); } else { while (true) { if (x == 2) { return 3; } x -= 1; } } } }
 int pick2(int x) { for (;;) { if (x > 3) { all_is_broken(); } if (x == 3) { break; } x += 1; } return x; }
 empty @is_you(int x) { write(pick2(x)); write(pick(x)); write('>'); }''', [['0'], ['1'], ['2'], ['5'], ['3']]),
